@@ -246,7 +246,7 @@ def all_obligations():
              expect=['delta window accepted by the table-driven decoder stays within', 'delta window rejected by the table-driven'],
              canaries=['CANARY delta accept path reached'], replayable=True, stream_replay='delta'))
 
-    for mx, tier in ((6, 'quick'), (12, 'thorough')):
+    for mx, tier in ((6, 'quick'), (8, 'thorough')):
         A(Ob(name=f'decode.make_tree_kraft.as{mx}', props=['C05', 'C06', 'C08'], kind='bounded', harness='h_decode.c', entry='h_make_tree_kraft', defines={'KRAFT_MAX_AS': str(mx), 'KRAFT_T': '5' if mx == 6 else '0'}, tier=tier,
              bound=f'alphabet size 3..{mx} (symbolic), every length 1..20 symbolic; the by-length summation of the code is compared with the by-symbol definition, an equivalence '
                    'SAT only decides for small alphabets (258 symbols: no result in 900 s)',
